@@ -124,6 +124,11 @@ def structure(rep, s, sn, op, fn, tag):
         l = lin_of(st.canon(L))
         ok20 = (l.k - (BASE + 2)) % 20 == 0 and all(c % 20 == 0 for c in l.co.values())
         rep.check(ok20, 'R02.4', 'queryresp|descriptor-multiple' + tag, 'QueryResp length %s is not 34 + 20*n' % short(L), function=fn, file=fnf)
+        from .frame_common import queryresp_length_ok
+        okl, announced, _ = queryresp_length_ok(s.fs, st, sn)
+        rep.check(okl, 'R02.4', 'queryresp|length-vs-count' + tag,
+                  'QueryResp announces %s descriptors but its length is %s: the frame does not carry the descriptors its count field prescribes'
+                  % (short(announced) if announced is not None else 'an unexamined number of', short(st.canon(L))), function=fn, file=fnf)
         return
     if op == OP['hello']:
         hello_chain(rep, s, sn, fn, tag)
